@@ -341,6 +341,7 @@ def suites_for(pid, rng, tier):
         groups("wake-groups", ("std", "alloc"), FG + SG, ks)
         fixed("wake-long", ("std", "alloc"), SCAN4 + ["race", "race_ok", "chain"], kl, long=True)
         groups("wake-groups-long", ("std",), FG + SG, kl, long=True)
+        groups("wake-groups-big", ("std",), FG + SG, kl // 2, big=True)
         S.append(("wake-wait", "std", "scan", gen.gen_wait(rng, ks // 2, "w")))
         for c in ("std", "alloc"):
             S.append(("wake-nest(monitor only)", c, "mon", gen.gen_nest(rng, ks // 2, "x" + c[0])))
@@ -352,6 +353,7 @@ def suites_for(pid, rng, tier):
         groups("own-groups", ("std", "alloc"), FG + SG, ks)
         fixed("own-long", ("std", "alloc"), SCAN4 + ["race", "race_ok", "chain"], kl, long=True)
         groups("own-groups-long", ("std",), FG + SG, kl, long=True)
+        groups("own-groups-big", ("std",), FG + SG, kl // 2, big=True)
         S.append(("own-wait", "std", "scan", gen.gen_wait(rng, ks // 2, "w", panic=0.08)))
         small("own", ("std",), "try_join")
         return "own", S
@@ -361,6 +363,7 @@ def suites_for(pid, rng, tier):
         groups("disc-groups", ("std", "alloc"), FG + SG, ks)
         fixed("disc-long", ("std", "alloc"), SCAN4 + ["race", "race_ok", "chain"], kl, long=True)
         groups("disc-groups-long", ("std",), FG + SG, kl, long=True)
+        groups("disc-groups-big", ("std",), FG + SG, kl // 2, big=True)
         S.append(("disc-wait", "alloc", "scan", gen.gen_wait(rng, ks // 2, "w")))
         nest_sim("disc-nest-sim")
         return "polls-nv", S
@@ -408,10 +411,12 @@ def suites_for(pid, rng, tier):
     if pid == "C11":
         groups("fgroup", ("std", "alloc"), FG, 2 * k)
         groups("fgroup-long", ("std", "alloc"), FG, kl, long=True)
+        groups("fgroup-big", ("std", "alloc"), FG, kl // 2, big=True)
         return "own", S
     if pid == "C12":
         groups("sgroup", ("std", "alloc"), SG, 2 * k)
         groups("sgroup-long", ("std", "alloc"), SG, kl, long=True)
+        groups("sgroup-big", ("std", "alloc"), SG, kl // 2, big=True)
         return "own", S
     if pid == "C16":
         fixed("selective", ("std",), SCAN4, 2 * k)
@@ -419,6 +424,7 @@ def suites_for(pid, rng, tier):
         groups("selective-groups", ("std",), FG + SG, k)
         fixed("selective-long", ("std",), SCAN4, kl, long=True)
         groups("selective-groups-long", ("std",), FG + SG, kl, long=True)
+        groups("selective-groups-big", ("std",), FG + SG, kl // 2, big=True)
         small("selective-join", ("std",), "join")
         small("selective-merge", ("std",), "merge")
         nest_sim("selective-nest-sim", ("std",), skip=("nest_jr",))      # a race polls all its children in every poll: not a combinator C16 speaks about
@@ -438,6 +444,7 @@ def suites_for(pid, rng, tier):
         fixed("conc-large", ("std",), SCAN4, ks // 4, large=True)
         groups("conc-groups", ("std", "alloc"), FG + SG, ks)
         fixed("conc-long", ("std", "alloc"), SCAN4, kl, long=True)
+        groups("conc-groups-big", ("std",), FG + SG, kl // 2, big=True)
         S.append(("conc-nest(monitor only)", "std", "mon", gen.gen_nest(rng, ks // 2, "xs", combs=("nest_jj", "nest_jr", "nest_rj", "nest_jt", "nest_gj", "nest_mm", "nest_gm"))))   # chain and zip are outside C20's second sentence
         nest_sim("conc-nest-sim")
         return "polls-nv", S
